@@ -25,6 +25,17 @@ type BTarReader struct {
 	reader   io.Reader
 	digester digest.Digester
 	tr       *tar.Reader
+	count    countWriter
+}
+
+// countWriter tracks the number of bytes read from the blob.
+type countWriter struct {
+	n int64
+}
+
+func (cw *countWriter) Write(p []byte) (int, error) {
+	cw.n += int64(len(p))
+	return len(p), nil
 }
 
 // NewTarReader creates a BTarReader.
@@ -53,9 +64,26 @@ func NewTarReader(opts ...Opts) *BTarReader {
 				Limit:  tr.desc.Size,
 			}
 		}
-		tr.reader = io.TeeReader(rdr, tr.digester.Hash())
+		tr.reader = io.TeeReader(rdr, io.MultiWriter(tr.digester.Hash(), &tr.count))
 	}
 	return &tr
+}
+
+// verify checks the digest and size after the blob has been read to the end.
+func (tr *BTarReader) verify() error {
+	if tr.digester == nil {
+		return nil
+	}
+	dig := tr.digester.Digest()
+	tr.digester = nil
+	if tr.desc.Digest.String() != "" && dig != tr.desc.Digest {
+		return fmt.Errorf("%w, expected %s, received %s", errs.ErrDigestMismatch, tr.desc.Digest.String(), dig.String())
+	}
+	if tr.desc.Size > 0 && tr.count.n != tr.desc.Size {
+		return fmt.Errorf("%w [expected %d, received %d]", errs.ErrShortRead, tr.desc.Size, tr.count.n)
+	}
+	tr.desc.Digest = dig
+	return nil
 }
 
 // Close attempts to close the reader and populates/validates the digest.
@@ -94,13 +122,8 @@ func (tr *BTarReader) RawBody() ([]byte, error) {
 	if err != nil {
 		return b, err
 	}
-	if tr.digester != nil {
-		dig := tr.digester.Digest()
-		tr.digester = nil
-		if tr.desc.Digest.String() != "" && dig != tr.desc.Digest {
-			return b, fmt.Errorf("%w, expected %s, received %s", errs.ErrDigestMismatch, tr.desc.Digest.String(), dig.String())
-		}
-		tr.desc.Digest = dig
+	if err := tr.verify(); err != nil {
+		return b, err
 	}
 	err = tr.Close()
 	return b, err
@@ -153,13 +176,13 @@ func (tr *BTarReader) ReadFile(filename string) (*tar.Header, io.Reader, error) 
 		return nil, nil, errs.ErrFileDeleted
 	}
 	if tr.digester != nil {
-		_, _ = io.Copy(io.Discard, tr.reader) // process/digest any trailing bytes from reader
-		dig := tr.digester.Digest()
-		tr.digester = nil
-		if tr.desc.Digest.String() != "" && dig != tr.desc.Digest {
-			return nil, nil, fmt.Errorf("%w, expected %s, received %s", errs.ErrDigestMismatch, tr.desc.Digest.String(), dig.String())
+		// process/digest any trailing bytes from reader
+		if _, err := io.Copy(io.Discard, tr.reader); err != nil {
+			return nil, nil, err
 		}
-		tr.desc.Digest = dig
+		if err := tr.verify(); err != nil {
+			return nil, nil, err
+		}
 	}
 	return nil, nil, errs.ErrFileNotFound
 }
